@@ -17,7 +17,11 @@
       external count: [collect_garbage] (with or without [roots]) only
       removes nodes whose counter is 0, [var]/[ite]/[apply]/... return
       nodes WITHOUT taking a reference for the caller, the reorderings keep
-      the ledger;
+      the ledger; the assignment [bdd.max_nodes = n] ([OSetMaxNodes]) only
+      sets the bound, and a call refused because the table is full
+      ([RuntimeError], [ERuntime]) leaves the ledger alone like every other
+      failed call ([ledger_after] looks at the outcome only for
+      [incref]/[decref], which create no node);
     - in the larger alphabet of [Model/Driver2.v], [__del__] ([OShutdown])
       releases the manager's own reference on the terminal: one is
       subtracted at node 1 when its counter is positive. *)
@@ -123,6 +127,8 @@ Proof.
   - (* OSetLastLen *)
     cbn [bind modify ret] in H. injection H as <- <-. by apply (Counts_same s).
   - (* OSetTrig *)
+    cbn [bind modify ret] in H. injection H as <- <-. by apply (Counts_same s).
+  - (* OSetMaxNodes: [bdd.max_nodes = n], a pure setter *)
     cbn [bind modify ret] in H. injection H as <- <-. by apply (Counts_same s).
   - apply (fun Hm => dsafe_counts _ s L r s' Hm HG HL H). dsafe. apply dsafe_cofactor.
   - apply (fun Hm => dsafe_counts _ s L r s' Hm HG HL H). dsafe. apply dsafe_quantify.
@@ -735,6 +741,33 @@ Example ledger_example_exact :
   (∀ n, n ∉ dom (succ sF) →
      ledger_init n + increfs w1 0 ledger_ops n = decrefs w1 0 ledger_ops n).
 Proof. apply run_counts_exact_from_new; [by vm_compute|apply ledger_ops_ok]. Qed.
+
+(** a bounded table ([bdd.max_nodes = 4], [OSetMaxNodes]): the conjunction
+    needs a fourth node and is refused with [RuntimeError] ([ERuntime]); the
+    failed call, and the [incref] of the node that was not made, leave the
+    ledger alone; with the bound lifted the same call succeeds *)
+Definition ledger_ops_full : list op :=
+  [OConfigure (Some true);
+   OVar 0; OIncref 2; OVar 1; OIncref 3;
+   OSetMaxNodes (Some 4%positive);
+   OApply "and" 2 (Some 3%Z) None; OIncref 4; ODecref 2;
+   OSetMaxNodes None;
+   OApply "and" 2 (Some 3%Z) None; OIncref 4].
+
+Lemma ledger_ops_full_ok :
+  hist_okD (fst (step world_empty 0 (ONew ledger_levels))) 0 ledger_ops_full.
+Proof.
+  cbn [ledger_ops_full hist_okD allowedD is_new caller_ok].
+  repeat split;
+    first [ intros _; vm_compute; lia
+          | intros [_ [? Hv]]; vm_compute in Hv; discriminate ].
+Qed.
+
+Example ledger_example_full :
+  let ops := ONew ledger_levels :: ledger_ops_full in
+  let sF := world_get (Total.run world_empty 0 ops) 0 in
+  Counts sF (ledger_hist world_empty 0 ops (fun _ => 0)).
+Proof. apply run_ledger_from_new; [by vm_compute|apply ledger_ops_full_ok]. Qed.
 
 (** the same over the whole alphabet, two managers: explicit reorderings
     (one rejected), [copy_bdd] into a second manager, a query, the release
